@@ -297,7 +297,7 @@ class Probe:
         pend_p, pend_d = np.zeros(n), np.zeros(n)
         calls = []
         for ob in obs:
-            if ob[0] == "update":
+            if ob[0] in ("update", "clear"):
                 pend_p, pend_d = np.zeros(n), np.zeros(n)
                 continue
             _, t, pos, neg = ob
